@@ -1,15 +1,16 @@
 (* C16 command table (Model/Policy.v extracted).
    perform  <bits> <uids> <bind> <subs> <op> <user>      -> nokey | incomplete | nousage | attr:is_unlocked | attr:is_public |
    performp <...same...>  (pre-480b116: oldest binding)     crash:user | crash:nobinding | run:<component>:<warned>
+   performo <...same...>  (pre-812bc0f: PGPUID.selfsig = newest signature of any type by the key)
    flags    <bits> <uids> <bind> <subs> <user>           -> per component: flag set (hex) or crash, comma separated
    forms    <bits>                                       -> is_public is_protected is_unlocked
    route    <own> <subs> <encrypters>                    -> own | cannot | sub:<candidates>
    bits  = present primary public protected unlocked enforce, one digit each
-   uids  = "_" or ';'-separated  ids@sigs ; ids = ','-separated hex tokens ("-" none); sigs = "-" or ','-separated created/flags/qual
+   uids  = "_" or ';'-separated  ids@sigs ; ids = ','-separated hex tokens ("-" none); sigs = "-" or ','-separated created/flags/qual/cert
    bind  = sigs ; subs = "_" or ';'-separated sigs ; user = "-" or a hex token ; lists of ids: ','-separated hex or "-" *)
 let split c s = if s = "-" || s = "_" then [] else String.split_on_char c s
 let parse_sig s = match String.split_on_char '/' s with
-  | [c; f; q] -> { s_created = z_of_hexnum c; s_flags = z_of_hexnum f; s_qual = (q = "1") }
+  | [c; f; q; t] -> { s_created = z_of_hexnum c; s_flags = z_of_hexnum f; s_qual = (q = "1"); s_cert = (t = "1") }
   | _ -> failwith "sig"
 let parse_sigs s = List.map parse_sig (split ',' s)
 let parse_uid s = match String.split_on_char '@' s with
@@ -36,6 +37,8 @@ let () = run_table [
       show (perform (parse_key bits uids bind subs) (parse_op op) (parse_user user)) | _ -> failwith "args");
   "performp", (function [bits; uids; bind; subs; op; user] ->
       show (perform_prefix (parse_key bits uids bind subs) (parse_op op) (parse_user user)) | _ -> failwith "args");
+  "performo", (function [bits; uids; bind; subs; op; user] ->
+      show (perform_old_selfsig (parse_key bits uids bind subs) (parse_op op) (parse_user user)) | _ -> failwith "args");
   "flags", (function [bits; uids; bind; subs; user] ->
       String.concat "," (List.map (function FOk f -> hexnum_of_z f | FCrash c -> crash_s c)
                            (comp_flags (parse_key bits uids bind subs) (parse_user user))) | _ -> failwith "args");
